@@ -10,6 +10,11 @@ open PedVerif.Subproc
 #print axioms other_tasks_run_full_false
 #print axioms terminates_and_releases
 #print axioms run_length_bounded
+#print axioms faithful_result_rounds
+#print axioms terminates_and_releases_rounds
+#print axioms new_loop_starts_from_initial_state
+#print axioms step_touches_one_invocation
+#print axioms no_state_between_invocations
 #print axioms childBeh_table
 #print axioms source_shape
 #print axioms join_waits
